@@ -108,7 +108,35 @@ def detect(name, prop, tier="quick"):
     return rc
 
 
+def wdetect(name, prop, tier="quick"):
+    """Like detect, but on a scratch worktree (AOTOOLS_REPO) so that several seeds can be examined at once; /repo untouched."""
+    d = VERIF / "seeded" / name
+    wt = "/tmp/wd-%s" % name
+    sh("git -C /repo worktree remove --force %s" % wt)
+    rc, out = sh("git -C /repo worktree add --detach %s HEAD" % wt)
+    assert rc == 0, out
+    t0 = time.time()
+    try:
+        rc, out = sh("git -C %s apply %s" % (wt, d / "patch.diff"))
+        assert rc == 0, out
+        rc, out = sh("./check %s --tier %s" % (prop, tier), cwd=VERIF, timeout=7200,
+                     env={"AOTOOLS_VERIF": "1", "AOTOOLS_REPO": wt, "AOVERIF_EVIDENCE_DIR": wt + "/.ev"})
+    finally:
+        sh("git -C /repo worktree remove --force %s" % wt)
+        shutil.rmtree(wt, ignore_errors=True)
+    lines = [l for l in out.splitlines() if l.startswith(("VIOLATION", "KNOWN-FINDING", "  key=", "MACHINERY", prop))]
+    print("== %s\n" % name + "\n".join(lines[-8:]))
+    print("exit", rc, "(%.0fs)" % (time.time() - t0))
+    meta = json.loads((d / "meta.json").read_text())
+    keys = [l.split("key=")[1].split(" detail=")[0] for l in lines if l.startswith("  key=")]
+    meta.setdefault("detected_by", {})["%s/%s" % (prop, tier)] = dict(exit=rc, keys=keys[:6])
+    (d / "meta.json").write_text(json.dumps(meta, indent=1) + "\n")
+    return rc
+
+
 if __name__ == "__main__":
+    if sys.argv[1] == "wdetect":
+        sys.exit(0 if wdetect(*sys.argv[2:5]) == 1 else 3)
     if sys.argv[1] == "verify":
         sys.exit(0 if verify(sys.argv[2], sys.argv[3]) else 1)
     if sys.argv[1] == "detect":
